@@ -1,6 +1,26 @@
 /-
   C16 — step 1 of grisubal for one segment (`generate_intersection_data`, model `crossingsOf` of
   `Model/Grisubal.lean`, tied to the real kernel by the `gcross` streams of tools/props/c16.py).
+
+  For every grid (origin, cell lengths > 0), every `eps > 0` and every segment `a → b` in eps-general position
+  (`GenPos`: both ends inside the grid quadrant and on no grid line; every crossing of a grid line at a parameter
+  strictly between `eps` and `1 - eps` and at least `eps` cells away from every grid corner on that line) — no
+  bound on the number of cells crossed, all four directions, all three code paths (neighbour cell, straight row /
+  column, diagonal sub-grid with its filter, `retain`, stable sort and `zip`):
+
+  * `C16_crossings_sound`            every reported intersection `(dart, t, s)` has `0 < s < 1`, `0 < t < 1` and the
+                                     point of the segment at `s` is the point at `t` of the side of the named grid dart
+  * `C16_crossings_on_grid_lines`    … hence a crossing of the open segment with a grid line
+  * `C16_crossings_complete`         no crossing of the open segment with a vertical / horizontal grid line is missed
+  * `C16_crossings_sorted`           they come strictly ordered along the segment (none twice)
+  * `C16_crossings_count`            their number is `|Δi| + |Δj|`, the number of identifiers the kernel pre-allocates
+                                     (no empty slot, the `zip` drops nothing)
+  * `C16_between_crossings_one_cell` between two consecutive intersections (and before the first / after the last)
+                                     the segment stays in one grid cell
+
+  NOT covered: f64 rounding (the model is over `Rat`; the tie is an equality of rationals on the exact family and
+  1e-9 elsewhere), segments through grid corners (`IntersecCorner`, outside general position), the dart numbering
+  of the darts inserted later.
 -/
 import Mathlib.Data.List.Perm.Basic
 import Honeycomb.Lemmas.GridCross
